@@ -334,6 +334,11 @@ def call(node: ast.Call, env: Env) -> Term:
             if isinstance(inner_t, (ast.ListComp, ast.GeneratorExp)) and len(inner_t.generators) == 1:
                 return count_term(list(inner_t.generators), env)
             return ("count", ("iter", T(inner_t, env)), TRUE)
+        if name == "map" and len(args) == 2 and isinstance(args[0], (ast.Name, ast.Attribute)):
+            # map(f, xs)  ==  (f(x) for x in xs)
+            v = ast.Name(id="_m", ctx=ast.Load())
+            ge = ast.GeneratorExp(elt=ast.Call(func=args[0], args=[v], keywords=[]), generators=[ast.comprehension(target=ast.Name(id="_m", ctx=ast.Store()), iter=args[1], ifs=[], is_async=0)])
+            return T(ge, env)
         if name == "bool" and len(args) == 1:
             return T(args[0], env)
         if name == "iter" and len(args) == 1:
@@ -398,6 +403,8 @@ def body_term(stmts: Sequence[ast.stmt], env: Env) -> Term:
         return ("iter", T(st.value.value, env))
     if isinstance(st, ast.Expr) and isinstance(st.value, ast.Constant):
         return body_term(rest, env)
+    if isinstance(st, ast.AnnAssign) and st.value is None:
+        return body_term(rest, env)  # a bare annotation declares, it does not compute
     if isinstance(st, (ast.Assign, ast.AnnAssign)):
         targets = st.targets if isinstance(st, ast.Assign) else [st.target]
         # counting loop:  c = 0; for v in D: [if C:] c += 1
@@ -484,6 +491,15 @@ def body_term(stmts: Sequence[ast.stmt], env: Env) -> Term:
                 return mk_or([("exists", dom, TRUE), after])
             if k == FALSE:
                 return mk_and([("forall", dom, FALSE), after])
+        if len(st.body) == 1 and not rest:
+            b = st.body[0]
+            conds_nodes = []
+            while isinstance(b, ast.If) and not b.orelse and len(b.body) == 1:
+                conds_nodes.append(b.test)
+                b = b.body[0]
+            if isinstance(b, ast.Expr) and isinstance(b.value, ast.Yield) and b.value.value is not None:
+                ge = ast.GeneratorExp(elt=b.value.value, generators=[ast.comprehension(target=st.target, iter=st.iter, ifs=conds_nodes, is_async=0)])
+                return T(ge, env)
         if len(st.body) == 1 and isinstance(st.body[0], ast.Expr) and isinstance(st.body[0].value, ast.YieldFrom) and not rest:
             inner = env.child()
             dom = ("iter", T(st.iter, env))
